@@ -1,5 +1,6 @@
 import HapModel.Drv.Basic
 import HapModel.Model.Tabix
+import HapModel.Model.HapSort
 namespace Drv
 open Lean Tabix
 
@@ -17,5 +18,11 @@ def hHapQuery (j : Json) : R Json := do
       | none => iterIds (ids.getD []) recs
     pure (jArr (r.map (fun x => jNat x.id))))
   pure <| jObj [("results", jArr outs)]
+
+/-- {"op":"hapSort","recs":[[chrom rank,start,stop,id rank]…]} → the ids in the order `Haplotypes.sort()` gives -/
+def hHapSort (j : Json) : R Json := do
+  let recs ← listF (fun r => do match ← arr r with
+    | [c, s, e, i] => pure (⟨← nat c, ← nat s, ← nat e, ← nat i⟩ : HRec) | _ => throw "rec") j "recs"
+  pure <| jObj [("order", jArr ((sortH recs).map (fun x => jNat x.id)))]
 
 end Drv
